@@ -37,6 +37,7 @@ def c09(ctx, res):
     path_trace(ctx, res)
     cfg = "MC_C09_quick.cfg" if ctx.quick else "MC_C09_thorough.cfg"
     ctx.gen_replay(res, "leaf", "MC_C09.tla", cfg)
+    ctx.gen_replay(res, "leaf", "MC_C09.tla", "MC_C09_nil.cfg")        # null members as terminal values
     ctx.gen_replay(res, "leaf", "MC_C09.tla", "MC_C09_bracket.cfg")    # a key that holds a closing bracket (only ".", "[" and "*" are excluded from keys)
     ctx.gen_replay(res, "leaf", "MC_Wide.tla", "MC_Wide_leaf.cfg")     # lists of 33 / 257 / 300 members: subscripts beyond one byte, every path resolved again
     # sessions: every history of LeafUseDotNotation (set / clear / toggle) and SetAttrPrefix calls interleaved with LeafNodes
@@ -65,6 +66,7 @@ def c11(ctx, res):
 
 
 def c12(ctx, res):
+    ctx.gen_replay(res, "newmap", "MC_Wide.tla", "MC_Wide_newmap.cfg")        # projections that carry 32 / 33 / 40 / 100 values
     # three key pairs in every order over nested new paths that share a parent
     ctx.gen_replay(res, "newmap", "MC_C12.tla", "MC_C12_three.cfg")
     path_trace(ctx, res)
@@ -124,6 +126,7 @@ def c18(ctx, res):
     # XMPP streams: every history of HandleXMPPStreamTag (set / clear / toggle), key folding, white-space and attribute-prefix setters with the four
     # decoder entry points on a <stream:stream> document in between (the element is returned at its start tag only while the register is on)
     ctx.gen_replay(res, "mxj", "Mxj.tla", "Mxj_xmpp_quick.cfg" if ctx.quick else "Mxj_xmpp.cfg", procs=8)
+    ctx.gen_replay(res, "mxj", "Mxj.tla", "Mxj_pfx.cfg", procs=8)      # attribute prefixes of one and two characters: decode, encode, leaf nodes, Elements / Attributes
     # the sequence codec knows no attribute prefix and no case folding: prefixes that a tag may begin with ("_")
     ctx.gen_replay(res, "mxj", "Mxj.tla", "Mxj_seqpfx.cfg", procs=4)
     ctx.gen_replay(res, "mxj", "Mxj.tla", "Mxj_vfp.cfg", procs=4)     # SetArraySize histories: results of queries are the caller's, whatever the size
@@ -142,6 +145,8 @@ def c01(ctx, res):
     # sessions of the integrated specification: every history of key-folding / prefix setters interleaved with decodes
     # (the decoder is a function of the registers at the time of the call: nothing is carried from one decode to the next)
     ctx.gen_replay(res, "mxj", "Mxj.tla", "Mxj_dec.cfg" if ctx.quick else "Mxj_dec_thorough.cfg", procs=8)
+    # the white-space switch (its argument-less form DISABLES trimming, it does not toggle) and simple-values-as-map, with both decoders
+    ctx.gen_replay(res, "mxj", "Mxj.tla", "Mxj_trim.cfg", procs=8)
     # structure under the cast flag with the integer register on/off (the cast chain itself is C14): repeated simple siblings
     ctx.gen_replay(res, "mxj", "Mxj.tla", "Mxj_castint.cfg", procs=4)
     xml_trace(ctx, res, "dec")
@@ -173,6 +178,9 @@ def c03(ctx, res):
     ctx.gen_replay(res, "encv", "MC_C03.tla", "MC_C03_nopfx_quick.cfg" if ctx.quick else "MC_C03_nopfx_thorough.cfg", procs=8)
     ctx.gen_replay(res, "encv", "MC_C03.tla", "MC_C03_attr2.cfg", procs=8)    # up to three attribute entries on one element, empty and non-empty values
     ctx.gen_replay(res, "encv", "MC_C03.tla", "MC_C03_nest.cfg", procs=8)     # lists inside lists, up to three members, seven nodes
+    # sessions: attribute prefixes of one and two characters set, replaced and reset through PrependAttrWithHyphen between encodings (and decodes,
+    # leaf nodes, Elements / Attributes) of a Map that holds keys for both, a number among them
+    ctx.gen_replay(res, "mxj", "Mxj.tla", "Mxj_pfx.cfg", procs=8)
     # Go-typed values a caller may put into a Map (int, int32, int64, float32, json.Number, []byte, []string, []map[string]interface{}):
     # the bytes are those of the untyped value (MC_C03t!TypeUp)
     ctx.gen_replay(res, "encv", "MC_C03t.tla", "MC_C03t_quick.cfg" if ctx.quick else "MC_C03t_thorough.cfg", procs=8)
@@ -228,6 +236,7 @@ def c14(ctx, res):
 def c16(ctx, res):
     ctx.gen_replay(res, "det", "MC_C16.tla", "MC_C16_quick.cfg" if ctx.quick else "MC_C16_thorough.cfg", procs=16)
     ctx.gen_replay(res, "det", "MC_C16.tla", "MC_C16_deep.cfg", procs=4)      # content ten levels deep
+    ctx.gen_replay(res, "det", "MC_C16.tla", "MC_C16_num.cfg", procs=8)       # numbers and booleans as element content and as text beside attributes
     ctx.gen_replay(res, "seq", "MC_C04w.tla", "MC_C04w.cfg", procs=4)         # MapSeq in SEQUENCE order when there are more than ten entries (exact bytes of the sequence codec)
     # sessions: the DECODER's key-folding / structure registers set, cleared and toggled between encodings of a Map whose keys differ in case only
     # (encoding is a function of the Map and of the encoder registers; ascending BYTE order of keys)
